@@ -22,6 +22,7 @@ type LStmt struct {
 	HasElse  bool    `json:"has_else,omitempty"`
 	Declare  bool    `json:"declare,omitempty"` // declaration statements are never covered by directives
 	Lead     string  `json:"lead"`              // leading comment line (neutral or directive)
+	Lead2    string  `json:"lead2,omitempty"`   // optional second leading comment line (between Lead and the statement)
 	Trail    string  `json:"trail,omitempty"`   // trailing comment (simple statements only)
 	EndLead  string  `json:"end_lead,omitempty"` // compound: comment line before the closing brace of the last block
 	ID       int     `json:"id"`
@@ -89,6 +90,9 @@ func (g *lintGen) simple() LStmt {
 		text = rapid.SampledFrom(lintClean).Draw(g.t, "cleanstmt")
 	}
 	s := LStmt{Text: text, Lead: g.neutral(), Trail: g.neutral()}
+	if rapid.IntRange(0, 3).Draw(g.t, "lead2") == 0 {
+		s.Lead2 = g.neutral()
+	}
 	s.ID = g.nextID
 	return s
 }
@@ -169,6 +173,9 @@ func (p *LProgram) render() string {
 		for i := range ss {
 			s := &ss[i]
 			w(ind + s.Lead)
+			if s.Lead2 != "" {
+				w(ind + s.Lead2)
+			}
 			s.First = line
 			if !s.Compound {
 				t := ind + s.Text
